@@ -139,6 +139,24 @@ Section Linear.
   Qed.
 End Linear.
 
+(** `jj op revert` of the current operation (the default `@`) is an undo: every portion the
+    model determines equals the parent operation's (bookmark, tag and workspace maps compared
+    by lookup), the Git fields stay the current ones. *)
+Theorem C41_revert_current : forall l0 h p pop,
+  let log := (l0 ++ [h])%list in
+  let hid := N.of_nat (length l0) in
+  o_parents h = [p] -> get log p = Some pop ->
+  exists bm tg w,
+    cmd_revert log hid h hid true true
+    = RNew [hid] (REVERT_OP_DESC_PREFIX ++ idstr hid)
+           (mk_pview (Some (v_heads (o_view pop))) (Some bm) (Some tg) (Some w)
+                     (Some (v_remotes (o_view pop)))
+                     (Some (v_git_refs (o_view h))) (Some (v_git_heads (o_view h)))) false
+    /\ (forall name, target_of (lookup_ref bm name) = target_of (lookup_ref (v_bookmarks (o_view pop)) name))
+    /\ (forall name, target_of (lookup_ref tg name) = target_of (lookup_ref (v_tags (o_view pop)) name))
+    /\ (forall name, lookup_ref w name = lookup_ref (v_wc (o_view pop)) name).
+Proof. exact revert_current. Qed.
+
 (** The permitted difference: when the restored working-copy commit is immutable and a new
     commit is put on top, bookmarks, tags, remote-tracking state and the Git fields are
     still exactly as the model says. *)
@@ -196,3 +214,4 @@ Print Assumptions C41_redo_inverse.
 Print Assumptions C41_undo_n.
 Print Assumptions C41_redo_n.
 Print Assumptions C41_redo_exhausted.
+Print Assumptions C41_revert_current.
